@@ -7,6 +7,7 @@ inductive Op where
   | M (k : Nat) | K (i k kind : Nat) | A (i v : Nat) | R (c k : Nat) (is : List Nat) | U (c : Nat)
   | T (t : Nat) | S (t id : Nat) | P (id : Nat)
   | IM | IT | IP | GM (lvl : Nat) | GT | N | F | Y
+  | XM | XT | XP        -- self-set: Set…Provider(Get…Provider()) / SetTextMapPropagator(GetTextMapPropagator())
   | par (threads : List (List Op))
 deriving Repr
 
